@@ -33,7 +33,10 @@ ORIG = [(None, None, True), ("http://example.com", "example.com", True),
         ("http://evil.com", "evil.com", True), ("http://example.com.evil.com", "example.com.evil.com", True),
         ("http://example.com@evil.com", "evil.com", False), ("http://evil.com/example.com", "evil.com", True),
         ("http://example.com:80", "example.com:80", True), ("null", "", True),
-        ("http://evil.com#example.com", "evil.com", True), ("http://evilexample.com", "evilexample.com", True)]
+        ("http://evil.com#example.com", "evil.com", True), ("http://evilexample.com", "evilexample.com", True),
+        # an Origin header that is present but EMPTY (`Origin:`; a whitespace-only value is stripped to this by
+        # HTTPHeaders.parse_line and refused by HTTPHeaders.add): names no host, so it can never equal Host
+        ("", "", True)]
 
 
 def rfc_accept(key):
@@ -52,6 +55,8 @@ def pre_req(u: int, c: int, k: int, v: int, h: int, o: int, legacy_origin: bool)
         return False
     if legacy_origin and o == 0:
         return False
+    if P.reach == "empty_origin_refused":       # reach twin only: steer the witness search
+        return o == len(ORIG) - 1 and dev == 0
     return in_shard(o)
 
 
@@ -59,15 +64,15 @@ def pre_req(u: int, c: int, k: int, v: int, h: int, o: int, legacy_origin: bool)
     pre=pre_req,
     quick=dict(DEV=2, timeout=150, reach_timeout=60),
     thorough=dict(DEV=3, timeout=1200, reach_timeout=120),
-    nshards=dict(quick=12, thorough=12),
-    reach=["accepted_101", "cross_origin_403", "bad_version_426", "missing_key_400"],
+    nshards=dict(quick=13, thorough=13),
+    reach=["accepted_101", "cross_origin_403", "empty_origin_refused", "bad_version_426", "missing_key_400"],
     units=["web.RequestHandler._execute", "websocket.WebSocketHandler.get", "websocket.WebSocketHandler.check_origin",
            "websocket.WebSocketHandler.get_websocket_protocol", "websocket.WebSocketProtocol13.accept_connection",
            "websocket.WebSocketProtocol13._handle_websocket_headers", "websocket.WebSocketProtocol13._accept_connection",
            "websocket.WebSocketProtocol13.compute_accept_value"],
     stubs=["stand-in HTTPConnection (_ws_rig.FakeConn), real Application / HTTPServerRequest / HTTPHeaders; fixed clock",
            "header values from pools by symbolic index (request concrete per path): Upgrade x6, Connection x6, key x4, "
-           "version x7, Host x4 (a request without Host never reaches the handler: HTTPServerRequest raises), Origin x12 (case, port, userinfo, path, fragment, null) sent as Origin or as "
+           "version x7, Host x4 (a request without Host never reaches the handler: HTTPServerRequest raises), Origin x13 (incl. the empty value) (case, port, userinfo, path, fragment, null) sent as Origin or as "
            "Sec-WebSocket-Origin; at most DEV of Upgrade/Connection/key/version/Host deviate from the valid baseline",
            "real hashlib/base64 on the concrete pooled keys: the response accept value is compared with "
            "base64(sha1(key + RFC GUID)) computed by the harness (incl. the RFC 6455 sample key/accept pair)"],
@@ -121,7 +126,9 @@ def h_srv_req(u: int, c: int, k: int, v: int, h: int, o: int, legacy_origin: boo
             assert conn.headers.get("Sec-WebSocket-Accept") is None
             if required and not origin_may:
                 reached("cross_origin_403")
-                pass
+                assert code == 403, "cross-origin upgrade must be answered 403, got %r" % code
+                if otext == "":
+                    reached("empty_origin_refused")
             if ok_upgrade and ok_conn and origin_may and not ok_ver and ver is not None:
                 reached("bad_version_426")
             if ok_upgrade and ok_conn and origin_may and ok_ver and key is None:
@@ -360,7 +367,7 @@ def h_client(key: str, accept: str, acc_mode: int, cu: int, cc: int, ce: int, co
 # ----------------------------------------------------------------------------------------------
 # Default origin check at unit level with free characters around pooled components.
 O_SCHEME = ["http://", "https://", "ws://", "//", ""]
-O_HOST = ["example.com", "EXAMPLE.com", "evil.com", "example.com:8080", "u@example.com"]
+O_HOST = ["example.com", "EXAMPLE.com", "evil.com", "example.com:8080", "u@example.com", ""]
 H_HOST = ["example.com", "example.com:8080", "Example.com"]
 
 
@@ -386,6 +393,8 @@ def pre_origin(sc: int, oh: int, hh: int, pre_s: str, suf: str) -> bool:
             return False      # urlsplit raises ValueError on unbalanced IPv6 brackets (request then fails with 500)
     if not (0 <= sc < len(O_SCHEME) and 0 <= oh < len(O_HOST) and 0 <= hh < len(H_HOST)):
         return False
+    if P.reach == "empty_origin_rejected":      # reach twin only: steer the witness search
+        return sc == len(O_SCHEME) - 1 and oh == len(O_HOST) - 1 and len(pre_s) == 0 and len(suf) == 0
     return in_shard(oh)
 
 
@@ -417,8 +426,8 @@ def ref_netloc(url):
     pre=pre_origin,
     quick=dict(L=0, LP=0, timeout=100, reach_timeout=60),
     thorough=dict(L=1, LP=0, timeout=900, reach_timeout=120),
-    nshards=dict(quick=5, thorough=5),
-    reach=["same_origin_accepted", "cross_origin_rejected"],
+    nshards=dict(quick=6, thorough=6),
+    reach=["same_origin_accepted", "cross_origin_rejected", "empty_origin_rejected"],
     units=["websocket.WebSocketHandler.check_origin"],
     stubs=["urllib.parse.urlsplit's lru_cache bypassed (urlsplit.__wrapped__) so the Origin stays symbolic",
            "quick: pooled components only (L=0); thorough: one free character after the host (urlsplit on symbolic "
@@ -453,6 +462,8 @@ def h_origin_unit(sc: int, oh: int, hh: int, pre_s: str, suf: str):
         else:
             if hostport.lower() != host.lower():
                 reached("cross_origin_rejected")
+            if len(origin) == 0:
+                reached("empty_origin_rejected")
             assert not (netloc == host and host == host.lower()), \
                 "default check_origin rejected the same-origin Origin %r for Host %r" % (origin, host)
     finally:
